@@ -218,8 +218,14 @@ def run_pair(res, rng, tier, null_name, alt_name):
             null.set_param_rule("omega", is_constant=True, value=1.0)
         # the richer model must free whatever the nested one fixes
         alt = build(alt_name, tree, aln, optimise_motif_probs=(null_name in ("JC69", "K80") and alt_name in ("F81", "HKY85", "GTR")))
-        if null_name in ("JC69", "K80"):
-            pass
+        # sometimes the nested model holds one of its rate parameters constant at an arbitrary value (a nested
+        # hypothesis in its own right); the richer model must still start from the same likelihood
+        null_pars = M.rate_param_names(null_name) if null_name in M.NUC_REV + M.NUC_NS + M.CODON else []
+        if null_pars and not same_model and rng.random() < 0.45:
+            cpar = rng.choice(null_pars)
+            cval = round(math.exp(rng.uniform(math.log(0.3), math.log(5.0))), 4)
+            null.set_param_rule(cpar, is_constant=True, value=cval)
+            detail["null_constant"] = [cpar, cval]
     except Exception as e:  # noqa: BLE001
         res.evals += 1
         res.witness(exc_mechanism(f"C16/{label}/build", e), **detail)
@@ -241,8 +247,10 @@ def run_pair(res, rng, tier, null_name, alt_name):
         return
     res.evals += 1
     res.count("nested-init-checked")
+    if "null_constant" in detail:
+        res.count("nested-init:null-with-constant-rate-param")
     if not close(alt_lnL, null_lnL, 1e-8):
-        res.witness(f"C16/nested-init/lnL-differs/{label}", null_lnL=null_lnL, alt_lnL=alt_lnL, **detail)
+        res.witness(f"C16/nested-init/lnL-differs/{label}" + ("/null-has-constant-param" if "null_constant" in detail else ""), null_lnL=null_lnL, alt_lnL=alt_lnL, **detail)
         return
     final = optimise_and_decide(res, alt, rng, tier, "alt-fit", detail, sig_base)
     if final is not None:
@@ -345,7 +353,31 @@ def run_app(res, rng, tier):
     lnL0 = float(result.null.lnL)
     lnL1 = float(result.alt.lnL) if hasattr(result.alt, "lnL") else float(list(result.alt)[0].lnL)
     if LR < -1e-6 or lnL1 < lnL0 - 1e-6:
-        res.witness(f"C16/app/negative-LR/{null_name}<{alt_name}", LR=LR, null_lnL=lnL0, alt_lnL=lnL1, **detail)
+        # G: the model app gives every rate parameter the bounds [1e-6, 50]. When the fitted null, projected onto the
+        # richer parameterisation (e.g. GTR C/T=48.8 -> GN C>T=63.2), falls outside those bounds, the bounded alternative
+        # does not contain the null point, i.e. the pair is not genuinely nested as configured; the value is clipped
+        # and a negative LR under a small evaluation budget is then not a violation of this property.
+        outside = []
+        try:
+            from cogent3 import get_model, make_tree
+
+            probe = get_model(alt_name).make_likelihood_function(make_tree(tr))
+            probe.set_alignment(data)
+            probe.initialise_from_nested(result.null.lf)
+            for rule in probe.get_param_rules():
+                v = rule.get("init", rule.get("value"))
+                if rule["par_name"] in ("mprobs", "length") or v is None or hasattr(v, "__len__") or isinstance(v, dict):
+                    continue
+                if v > 50 or v < 1e-6:
+                    outside.append([rule["par_name"], float(v)])
+        except Exception as e:  # noqa: BLE001
+            outside = []
+            detail["probe_error"] = repr(e)[:200]
+        if outside:
+            res.refused += 1
+            res.count("app:null-point-outside-alt-bounds(not nested as configured)")
+        else:
+            res.witness(f"C16/app/negative-LR/{null_name}<{alt_name}", LR=LR, null_lnL=lnL0, alt_lnL=lnL1, **detail)
     res.sig("app", null_name, alt_name, opt["max_evaluations"])
 
 
@@ -363,7 +395,7 @@ def run_case(case):
 
 
 def required(counters, tier):
-    need = ["nested-init-checked", "nested-by-scope", "trace-checked", "trace:optimiser-last-not-best", "optimiser:local", "bounds-checked", "LR-checked", "app-hypothesis-runs", "budget:1", "budget:200"]
+    need = ["nested-init-checked", "nested-init:null-with-constant-rate-param", "nested-by-scope", "trace-checked", "trace:optimiser-last-not-best", "optimiser:local", "bounds-checked", "LR-checked", "app-hypothesis-runs", "budget:1", "budget:200"]
     if not (counters.get("optimiser:global") or counters.get("optimiser:global+local")):
         need.append("optimiser:global")
     return [n for n in need if not counters.get(n)]
